@@ -152,6 +152,14 @@ class Body:
             if not d["p"]["proj"]:
                 self.names.setdefault(d["p"]["l"], d["name"])
         self._cfg = None
+        # captured variables of closures: debug entries whose place is a field of the environment `_1`
+        self.upvars = {}
+        for d in raw["debug"]:
+            pr = d["p"]["proj"]
+            if d["p"]["l"] == 1 and pr:
+                fs = [e for e in pr if isinstance(e, dict) and "f" in e]
+                if fs:
+                    self.upvars.setdefault(fs[0]["i"], d["name"])
 
     def name_of(self, l):
         return self.names.get(l, "_%d" % l)
